@@ -518,6 +518,8 @@ def gen(item, rng, tier):
         st['R']['R%dusr' % i] = v
     st['R']['R8usr'] = nzcv << 28
     core = {'config': cfg, 'devices': devices, 'regs': st, 'done_pc': G.CODE + len(code) - 2}
+    if rng.random() < 0.2:
+        core['custom_fetch'] = True          # an integrator's fetch unit in place of the stock fetch_instruction() (sim/machine.py)
     # slot addresses
     addrs = []
     a = G.CODE + pro_len + 2
